@@ -73,6 +73,16 @@ def main():
             viol = [l for l in out.splitlines() if l.startswith("VIOLATION")]
             res["checks"][p] = (viol[0].split("replay=")[-1].replace(VERIF + "/replays/", "") if viol else "missed")
         sh("git checkout -q -- . && git clean -fdq", MREPO)
+        # seeded changes run as root: one of them may delete a device node it is handed as a
+        # file name (the existing suite loads /dev/null as a configuration file)
+        import stat as _stat
+        try:
+            ok = _stat.S_ISCHR(os.stat("/dev/null").st_mode)
+        except OSError:
+            ok = False
+        if not ok:
+            res["dev_null_damaged"] = True
+            subprocess.run(["sh", "-c", "rm -f /dev/null; mknod -m 666 /dev/null c 1 3"])
         print(json.dumps(res), flush=True)
     subprocess.run(["git", "-C", "/repo", "worktree", "remove", "--force", WT],
                    stdout=subprocess.DEVNULL, stderr=subprocess.DEVNULL)
